@@ -52,13 +52,13 @@ fn simplify(st: &Step) -> Vec<Step> {
                 out.push(Step::Batch { hs: h2 });
             }
         }
-        Step::Pre { g, dst, entry, st, ss, ds, dh, d } => {
+        Step::Pre { g, dst, entry, st, ss, ds, dh, d, it } => {
             if !ds.is_empty() {
                 let mut ds2 = ds.clone();
                 let mut dh2 = dh.clone();
                 ds2.pop();
                 dh2.pop();
-                out.push(Step::Pre { g: *g, dst: *dst, entry: *entry, st: st.clone(), ss: ss.clone(), ds: ds2, dh: dh2, d: *d });
+                out.push(Step::Pre { g: *g, dst: *dst, entry: *entry, st: st.clone(), ss: ss.clone(), ds: ds2, dh: dh2, d: *d, it: *it });
             }
             if !st.is_empty() {
                 let mut st2 = st.clone();
@@ -67,7 +67,7 @@ fn simplify(st: &Step) -> Vec<Step> {
                 if ss2.len() > st2.len() {
                     ss2.pop();
                 }
-                out.push(Step::Pre { g: *g, dst: *dst, entry: *entry, st: st2, ss: ss2, ds: ds.clone(), dh: dh.clone(), d: *d });
+                out.push(Step::Pre { g: *g, dst: *dst, entry: *entry, st: st2, ss: ss2, ds: ds.clone(), dh: dh.clone(), d: *d, it: *it });
             }
         }
         Step::Mul { g, dst, a, s, via, d } => {
@@ -94,12 +94,12 @@ fn simplify(st: &Step) -> Vec<Step> {
                 out.push(Step::Sign { s: *s, m: simcore::B(m.0[..m.0.len() / 2].to_vec()), mode: *mode, ctx: ctx.clone(), ch: ch.clone() });
             }
         }
-        Step::Ver { mode, key, m, sig, ctx, ch, chosen, d } => {
+        Step::Ver { mode, key, m, sig, ctx, ch, chosen, d, ksrc } => {
             if !ch.is_empty() {
-                out.push(Step::Ver { mode: *mode, key: key.clone(), m: m.clone(), sig: sig.clone(), ctx: ctx.clone(), ch: vec![], chosen: chosen.clone(), d: *d });
+                out.push(Step::Ver { mode: *mode, key: key.clone(), m: m.clone(), sig: sig.clone(), ctx: ctx.clone(), ch: vec![], chosen: chosen.clone(), d: *d, ksrc: *ksrc });
             }
             if *d != 0 {
-                out.push(Step::Ver { mode: *mode, key: key.clone(), m: m.clone(), sig: sig.clone(), ctx: ctx.clone(), ch: ch.clone(), chosen: chosen.clone(), d: 0 });
+                out.push(Step::Ver { mode: *mode, key: key.clone(), m: m.clone(), sig: sig.clone(), ctx: ctx.clone(), ch: ch.clone(), chosen: chosen.clone(), d: 0, ksrc: *ksrc });
             }
         }
         _ => {}
